@@ -50,7 +50,7 @@ m = {
     ],
     "checks": checks,
     "not_applicable": na,
-    "notes": "All checks are bounded exhaustive exploration of the real code (no sampling decides anything): depth-first over schedules / faults / histories within stated bounds, and breadth-first reachability to closure over canonical abstract states for the managed and unmanaged pool histories. Exit 2 of ./check is a machinery failure, never a verdict. Known findings and repaired defects: /verif/KNOWN_FINDINGS.json. Hook commits: two of them (75eb98e, 5f6f7d6) revise lines that earlier hook commits had added; relative to the pinned tree the hook patches only add lines (every line deleted between the pinned tree and HEAD is deleted by a fix: commit - checked with git diff).",
+    "notes": "All checks are bounded exhaustive exploration of the real code (no sampling decides anything): depth-first over schedules / faults / histories within stated bounds, and breadth-first reachability to closure over canonical abstract states for the managed and unmanaged pool histories. Exit 2 of ./check is a machinery failure, never a verdict. Known findings and repaired defects: /verif/KNOWN_FINDINGS.json. Hook commits: three of them (75eb98e, 5f6f7d6, 02df3b1) revise lines that earlier hook commits had added; relative to the pinned tree the hook patches only add lines (every line deleted between the pinned tree and HEAD is deleted by a fix: commit - checked with git diff).",
 }
 json.dump(m, open("/verif/MANIFEST.json", "w"), indent=1)
 print("claimed:", sorted(CLAIMED), "not claimed:", [x["property_id"] for x in na])
